@@ -77,6 +77,9 @@ def build(seed, pi, subset):
         a_rel: "# the renamed page itself\n\n" + note_lines,
         "other.zo": page,
         "deep/er/inner.zo": page,
+        "deep/other.zo": page,            # same file name as the top-level page
+        "deep/er/other.zo": "# third page with that name\n\n" + note_lines,
+        "deep/saved.zoq": "# W #u\n#\n" + note_lines,
         "tmpl.zot": "# template\n\n## {{ name }}\n\n" + note_lines + joined,
         "zoq/saved.zoq": "# W #t\n#\n" + note_lines,
         "unrelated.txt": "not a zorg file " + " ".join(els) + "\n",
